@@ -505,7 +505,7 @@ def main():
         # widen once: thorough generators, more cases, other seeds
         notes.append("widened search after %s" % ("broken proof" if broken_proof else "correspondence disagreement"))
         wd = os.path.join(OUT, pid + "-wide")
-        r, err = one_round(pid, seed + 7919, "thorough", wd, None, 2)
+        r, err = one_round(pid, seed + 7919, "thorough", wd, None, 1)
         if r is not None:
             wstats, wcases, wresults, _ = r
             kh, pf, dg, _ = classify(pid, wresults, wcases, known)
